@@ -8,7 +8,8 @@ with the same comparator shape.
 Does not decide: chunking, duplicate handling, empty-side behaviour (value level)."""
 import re
 
-from tmpl import site, suffix, lost_witnesses
+from tmpl import site, suffix, lost_witnesses, local_defs
+from mir import operand_places
 
 JOINS = {
     'NestedLoopJoin': 'executor::nested_loop_join::NestedLoopJoinExecutor::execute',
@@ -189,3 +190,50 @@ def run(ctx):
                f'positive examples flagged: {sorted(got)}; expected exactly executor::exists_overwritten')
     except SystemExit as e:
         ctx.ob(R5, 'self-test·fixture', False, f'fixture crate could not be analysed: {e}')
+
+    R6 = 'C11-R6'
+    ctx.rule(R6, 'top-N equals sort-then-limit: TopNExecutor must keep the best offset+limit rows, so every size comparison in it that '
+                 'depends on `limit` depends on `offset` as well (the bound is heap_size = offset + limit); a bound that is `limit` alone '
+                 'discards rows that belong to positions limit+1 .. limit+offset')
+    tb = prog.body('executor::top_n::TopNExecutor::execute::{closure#0}')
+    if ctx.anchor(R6, 'executor::top_n::TopNExecutor::execute', tb is not None):
+        ctx.functions_analysed.add(tb.name)
+        fld = {v['name']: v['pl']['p'][0] for v in (tb.rec.get('vars') or []) if v['pl']['l'] == 1 and v['pl']['p']}
+        lim, off = fld.get('self__limit'), fld.get('self__offset')
+        if ctx.anchor(R6, 'TopNExecutor: limit / offset fields', lim and off):
+            def deps(l, seen=None, depth=14):
+                seen = seen if seen is not None else set()
+                out = set()
+                if l in seen or depth < 0:
+                    return out
+                seen.add(l)
+                for bb, kind, payload in local_defs(tb, l):
+                    if kind == 'call' and not re.search(r'::(saturating_add|checked_add|wrapping_add|min|max|add|unwrap|unwrap_or)$', payload.get('fn') or ''):
+                        continue    # only arithmetic carries a bound; `heap.len()` does not depend on the capacity it was built with
+                    places = operand_places(payload) if kind == 'assign' else [a['pl'] for a in payload.get('args', []) if a['k'] != 'const']
+                    for pl in places:
+                        if pl['l'] == 1 and lim in pl['p']:
+                            out.add('limit')
+                        elif pl['l'] == 1 and off in pl['p']:
+                            out.add('offset')
+                        else:
+                            out |= deps(pl['l'], seen, depth - 1)
+                return out
+            n_cmp = 0
+            for bb, st in tb.stmts():
+                rv = st.get('rv', {}) if st['s'] == 'assign' else {}
+                if rv.get('rv') == 'binop' and rv['op'] in ('Lt', 'Le', 'Gt', 'Ge') and rv.get('ty') == 'usize':
+                    d = set()
+                    for pl in operand_places(rv):
+                        d |= deps(pl['l'])
+                        if pl['l'] == 1 and lim in pl['p']:
+                            d.add('limit')
+                        if pl['l'] == 1 and off in pl['p']:
+                            d.add('offset')
+                    if 'limit' in d:
+                        n_cmp += 1
+                        ctx.ob(R6, f'TopN·size-bound·bb{"" if "offset" in d else "-limit-only"}', 'offset' in d,
+                               f'usize comparison at block {bb} depends on {sorted(d)}', [site(tb, bb)],
+                               what='TopNExecutor bounds its heap by `limit` instead of `offset + limit`: with an OFFSET, rows that belong '
+                                    'to the requested window are discarded (ORDER BY .. LIMIT n OFFSET m returns fewer rows than sort + limit)')
+            ctx.floor(R6, n_cmp, 1, 'size comparisons in TopNExecutor that depend on limit')
